@@ -217,12 +217,19 @@ def eval_C04(doc):
 
 
 def gen_C05(rng, tier):
-    return with_debug_log(rng, base_doc(rng, rng.choice(["single", "single", "extend", "widen", "history"]), latlon_p=0.35,
-                                        world_kw={"linked_p": 0.05}))
+    # the jump operation (continue_with_distance) is not excluded by C05: 20 % of the histories use it, on
+    # traces with an outlier and a cut-off so that there is an early stop to continue from
+    prof = rng.choice(["single", "single", "extend", "widen", "history", "anyops"])
+    if prof == "anyops":
+        d = base_doc(rng, prof, latlon_p=0.2, world_kw={"linked_p": 0.05}, cfg_kw={"only_edges": True},
+                     trace_kw={"outlier_p": 0.7, "nobs": rng.choice([3, 4, 5, 6, 7, 8])})
+        d["cfg"].setdefault("max_dist", 2.5 * d["world"].get("unit", 1.0))
+        return with_debug_log(rng, d)
+    return with_debug_log(rng, base_doc(rng, prof, latlon_p=0.35, world_kw={"linked_p": 0.05}))
 
 
 def eval_C05(doc):
-    return eval_invariants(doc, [oa.check_c05], skip_jumped=True)
+    return eval_invariants(doc, [oa.check_c05])
 
 
 def gen_C09(rng, tier):
@@ -826,8 +833,6 @@ def eval_C15(doc):
     stats = {}
     d1 = clone(doc)
     lat0, lon0 = d1.pop("place")
-    if d1["backend"] == "sqlite" and not d1["cfg"].get("only_edges", True):
-        d1["backend"] = "inmem"
     d2 = clone(d1)
     d2["world"], d2["trace"] = gen.to_latlon(d1["world"], d1["trace"], lat0, lon0)
     a = run_session(d1)
